@@ -30,10 +30,21 @@ Definition cmsg := msg body sigd tx.
 Definition astate := state body sigd valset Z tx wstate.
 Definition cwinner := @winner tx.
 
+(** the follow-up of an accepted transaction: for submit_logic_call (nothing follows) and
+    update_valset (SetSnapshotOnChain's error is only logged, older updates are pruned) it cannot
+    fail and queues nothing -- PREDICTED; for the deployments and the handover it is the observed input *)
 Definition apply_effect (e : envt) (m : cmsg) (t : tx) (w : wstate) : option (wstate * list body) :=
-  match e with None => None | Some l => Some (w, l) end.
+  match b_kind (m_body _ _ _ m) with
+  | KSubmitLogicCall | KUpdateValset => Some (w, [])
+  | _ => match e with None => None | Some l => Some (w, l) end
+  end.
+(** the follow-up of an error proof: update_valset and the handover only emit an event -- PREDICTED;
+    the three retrying actions queue what the harness saw appear (at most the retry) *)
 Definition on_error_proof (e : envt) (m : cmsg) (w : wstate) : wstate * list body :=
-  (w, match e with None => [] | Some l => l end).
+  match b_kind (m_body _ _ _ m) with
+  | KUpdateValset | KHandover => (w, [])
+  | _ => (w, match e with None => [] | Some l => l end)
+  end.
 
 Definition c_verify := verify body sigd valset calldata tx b_kind b_fees_present expected_calldata expected_deploy calldata_eqb.
 Definition c_step := step body sigd valset calldata Z tx wstate envt b_kind b_fees_present expected_calldata expected_deploy
